@@ -136,15 +136,39 @@ def parse_fragments_from_tokens__w_is_plain(
 
 
 def parse_fragments_from_token(token: Token) -> List[symbol_syntax.Fragment]:
-    if token.is_quoted and token.is_hard_quote_type:
-        return [symbol_syntax.constant(token.string)]
-    return symbol_syntax.split(token.string)
+    ret_val = []
+    for is_hard_quoted, text in _quote_fragments(token.source_string):
+        if not text:
+            continue
+        for fragment in ([symbol_syntax.constant(text)] if is_hard_quoted else symbol_syntax.split(text)):
+            if fragment.is_constant and ret_val and ret_val[-1].is_constant:
+                ret_val[-1] = symbol_syntax.constant(ret_val[-1].value + fragment.value)
+            else:
+                ret_val.append(fragment)
+    return ret_val
+
+
+def _quote_fragments(source_string: str) -> List[Tuple[bool, str]]:
+    """Splits the source of a (valid) token into (is-hard-quoted, text) fragments."""
+    ret_val = []
+    pos = 0
+    while pos < len(source_string):
+        ch = source_string[pos]
+        if ch in ('"', "'"):
+            end = source_string.index(ch, pos + 1)
+            ret_val.append((ch == "'", source_string[pos + 1:end]))
+            pos = end + 1
+        else:
+            end = pos
+            while end < len(source_string) and source_string[end] not in ('"', "'"):
+                end += 1
+            ret_val.append((False, source_string[pos:end]))
+            pos = end
+    return ret_val
 
 
 def parse_sym_ref_or_fragments_from_token(token: Token) -> Either[SymbolName, List[symbol_syntax.Fragment]]:
-    if token.is_quoted and token.is_hard_quote_type:
-        return Either.of_right([symbol_syntax.constant(token.string)])
-    fragments = symbol_syntax.split(token.string)
+    fragments = parse_fragments_from_token(token)
     mb_just_symbol_name = _is_single_sym_ref(fragments)
     return (
         Either.of_left(mb_just_symbol_name)
